@@ -121,6 +121,8 @@ with prelude.NoTracing():
         (("H", "H2"), ("H", "H", "H"), -1.0, -1.0, 100),  # permuted
         (("e-", "H+"), ("H",), -1.0, -1.0, 100),
         (("H+", "E"), ("H",), -1.0, -1.0, 100),  # other electron spelling
+        (("H", "H"), ("H2", "H"), -1.0, -1.0, 100),  # same *sets* as entry 5, different multisets
+        (("H2", "H"), ("H", "H"), -1.0, -1.0, 100),  # same sets as entries 6/7, different multisets
     ]
     POOL = [Reaction(list(r), list(p), lo, hi, reaction_type=ReactionType(t)) for r, p, lo, hi, t in POOL_DESC]
 
@@ -163,7 +165,7 @@ def _real_untraced(sel, mode):
 def real_default(sel: List[int]) -> bool:
     """
     pre: len(sel) <= 3
-    pre: all(0 <= x < 10 for x in sel)
+    pre: all(0 <= x < 12 for x in sel)
     post: _ == True
     """
     return _real(sel, None)
@@ -172,7 +174,7 @@ def real_default(sel: List[int]) -> bool:
 def real_brief(sel: List[int]) -> bool:
     """
     pre: len(sel) <= 3
-    pre: all(0 <= x < 10 for x in sel)
+    pre: all(0 <= x < 12 for x in sel)
     post: _ == True
     """
     return _real(sel, "brief")
@@ -181,7 +183,7 @@ def real_brief(sel: List[int]) -> bool:
 def real_minimal(sel: List[int]) -> bool:
     """
     pre: len(sel) <= 3
-    pre: all(0 <= x < 10 for x in sel)
+    pre: all(0 <= x < 12 for x in sel)
     post: _ == True
     """
     return _real(sel, "minimal")
@@ -190,7 +192,7 @@ def real_minimal(sel: List[int]) -> bool:
 def real_short(sel: List[int]) -> bool:
     """
     pre: len(sel) <= 3
-    pre: all(0 <= x < 10 for x in sel)
+    pre: all(0 <= x < 12 for x in sel)
     post: _ == True
     """
     return _real(sel, "short")
@@ -198,7 +200,7 @@ def real_short(sel: List[int]) -> bool:
 
 def eq_laws(i: int, j: int) -> bool:
     """
-    pre: 0 <= i < 10 and 0 <= j < 10
+    pre: 0 <= i < 12 and 0 <= j < 12
     post: _ == True
     """
     i, j = prelude.concrete(i), prelude.concrete(j)
